@@ -198,3 +198,68 @@ func vxH_C16_dirtyLimit() {
 	_, gerr := c.Get([]byte{'x'}, ReadOptions{})
 	vxAssert("get-after-close", gerr == ErrClosed)
 }
+
+func init() { vxRegister("vxH_C16_pingFlood", vxH_C16_pingFlood) }
+
+// vxH_C16_pingFlood: asynchronous merger notifications (from the
+// application, the idle waker or the persister itself) queue up in a
+// bounded channel while the merger is busy with a cycle; meanwhile a
+// write-back completes and the persister wants to wake the merger to hand
+// down what sits in the mid section. Whatever the number of queued
+// notifications (symbolic, up to beyond the channel's capacity), every API
+// call still returns and Close works.
+func vxH_C16_pingFlood() {
+	co := CollectionOptions{}
+	ll := vxNewLL(nil)
+	ll.stallAt = 0
+	gate := make(chan struct{})
+	armed := false
+	co.LowerLevelInit = ll.snapshot()
+	co.LowerLevelUpdate = ll.update
+	co.OnEvent = func(ev Event) {
+		if ev.Kind == EventKindMergerProgress && armed {
+			armed = false
+			<-gate // the merger is busy (it holds no lock here)
+		}
+	}
+	ci, err := NewCollection(co)
+	vxAssert("new-ok", err == nil)
+	c := ci.(*collection)
+	ll.opts = c.options
+	ll.ss.options = c.options
+	c.Start()
+	put := func(k byte) {
+		b, berr := c.NewBatch(1, 8)
+		vxAssert("newbatch-ok", berr == nil)
+		b.Set([]byte{k}, []byte{'v'})
+		vxAssert("executebatch-ok", c.ExecuteBatch(b, WriteOptions{}) == nil)
+		b.Close()
+	}
+	put('a')
+	c.NotifyMerger("go", true) // base handed down; the persister stalls inside LowerLevelUpdate
+	vxQuiesce()
+	put('b')
+	c.NotifyMerger("go", true) // merged into mid, the base is busy
+	vxQuiesce()
+	armed = true
+	c.NotifyMerger("wake", false) // the merger starts a cycle and stays busy in it
+	vxQuiesce()
+	n := vxChoose(12) // further notifications arriving meanwhile: 0..11 (the channel holds 10)
+	var wg sync.WaitGroup
+	for i := 0; i < n; i++ {
+		wg.Add(1)
+		go func() {
+			defer wg.Done()
+			c.NotifyMerger("more", false)
+		}()
+	}
+	vxQuiesce()
+	close(ll.release) // the write-back completes; the persister loops
+	vxQuiesce()
+	close(gate) // the merger's cycle ends
+	vxQuiesce()
+	_, gerr := c.Get([]byte{'a'}, ReadOptions{})
+	vxAssert("get-ok", gerr == nil)
+	wg.Wait()
+	vxAssert("close-ok", c.Close() == nil)
+}
